@@ -291,22 +291,6 @@ func c15Pairs(thorough bool) []c15Pair {
 			add(a, b)
 		}
 	}
-	// header blocks of 3 and 4 fragments: every chain shape with every partner (both
-	// orders); the quick chain shapes with each other, the thorough-only ones with two of them
-	qc := c15ChainShapes(false)
-	for xi, x := range c15ChainShapes(thorough) {
-		for _, y := range c15ChainPartners() {
-			add(x, y)
-			add(y, x)
-		}
-		if xi >= len(qc) { // thorough-only shape: two chains on one connection with two of the quick chain shapes
-			qc = qc[:2]
-		}
-		for _, y := range qc {
-			add(x, y)
-			add(y, x)
-		}
-	}
 	// late frames for a stream that is gone: every late shape with every late partner (both
 	// orders), and the late shapes with each other
 	late := c15LateShapes(thorough)
@@ -343,6 +327,22 @@ func c15Pairs(thorough bool) []c15Pair {
 		add(wide[1], wide[2])
 		add(late[0], wide[1])
 		add(wide[0], late[2])
+	}
+	// header blocks of 3 and 4 fragments: every chain shape with every partner (both
+	// orders); the quick chain shapes with each other, the thorough-only ones with two of them
+	qc := c15ChainShapes(false)
+	for xi, x := range c15ChainShapes(thorough) {
+		for _, y := range c15ChainPartners() {
+			add(x, y)
+			add(y, x)
+		}
+		if xi >= len(qc) { // thorough-only shape: two chains on one connection with two of the quick chain shapes
+			qc = qc[:2]
+		}
+		for _, y := range qc {
+			add(x, y)
+			add(y, x)
+		}
 	}
 	if thorough {
 		t := c15ThoroughShapes()
